@@ -63,7 +63,8 @@ Lemma relay_decide_bad s cls al s1 pre : relay_decide o s cls = (al, s1, pre) ->
 Proof.
   unfold relay_decide. destruct cls.
   - intros H; inversion H; subst. auto.
-  - destruct (N.eqb (relayclient s) 0); [destruct (Z.ltb (o_relay o) 0)|]; intros H; inversion H; subst; auto.
+  - destruct (authed s); [intros H; inversion H; subst; auto|].
+    destruct (N.eqb (relayclient s) 0); [destruct (Z.ltb (o_relay o) 0)|]; intros H; inversion H; subst; auto.
 Qed.
 
 Lemma h_rcpt_bad s arg evs h s' : h_rcpt o s arg = (evs, h, s') -> nobad evs /\ badcmds s' = badcmds s /\ h <> HEXIT.
@@ -162,7 +163,9 @@ Proof.
     destruct h'; inversion H; subst; try (apply Hex; reflexivity);
       (destruct Hne as (Hn & Hb); [discriminate|]); (split; [exact Hn|]); try exact Hb; reflexivity.
   - inversion H; subst. split; [nb|reflexivity].
-  - inversion H; subst. split; [nb|reflexivity].
+  - (* smtp_auth *)
+    destruct (authed s || negb (o_authperm o)); [inversion H; subst; split; [nb|reflexivity]|].
+    destruct (o_auth o (skipn 5 l)); inversion H; subst; [split; [nb|reflexivity]|split; [nb|reflexivity]|simpl; discriminate].
   - inversion H; subst. split; [nb|reflexivity].
   - inversion H; subst. split; [nb|reflexivity].
   - destruct (N.eqb (comstate s) 1 && bytes_eqb (sub l 4 10) [32; 47; 32; 72; 84; 84; 80; 47; 49; 46]%N);
